@@ -33,7 +33,7 @@ func (c *slowCloseConn) Close() error {
 // (its Wait returns once, within the watchdog), tags on the wire must be unique, Close must
 // return. Run natively and (by bin/check) under the race detector.
 func runC13(h *H) {
-	h.Rule("one imapclient.Client shared by 2..8 goroutines issuing NOOP, STATUS, LIST (streamed), FETCH with a body literal (streamed), SEARCH (with non-ASCII criteria, so that the enabled set is consulted), APPEND (literal-bearing), ENABLE, concurrently with a goroutine calling State/Caps/Mailbox and with the connection ended at a random moment by the server (close) or by the caller (Client.Close); in half of the runs the connection's Close takes 1-4 ms, so that commands are submitted while the client is tearing down. Oracle: every Wait returns exactly once within the watchdog, with an error if the command had not completed; tags received by the server are pairwise distinct; Close returns; the same run under the Go race detector must report no race whose stack involves imapclient or internal/imapwire. Non-trivial = the run ended the connection while commands were in flight; distinct by seed.")
+	h.Rule("one imapclient.Client shared by 2..8 goroutines issuing NOOP, STATUS, LIST (streamed), FETCH with a body literal (streamed), SEARCH (with non-ASCII criteria, so that the enabled set is consulted), APPEND (literal-bearing), ENABLE, concurrently with a goroutine calling State/Caps/Mailbox and reading the fields of the returned mailbox snapshot while unilateral EXISTS/EXPUNGE/FLAGS arrive, and with the connection ended at a random moment by the server (close) or by the caller (Client.Close); in half of the runs the connection's Close takes 1-4 ms, so that commands are submitted while the client is tearing down. Oracle: every Wait returns exactly once within the watchdog, with an error if the command had not completed; tags received by the server are pairwise distinct; Close returns; the same run under the Go race detector must report no race whose stack involves imapclient or internal/imapwire. Non-trivial = the run ended the connection while commands were in flight; distinct by seed.")
 	iters := h.Pick(60, 600)
 	if os.Getenv("VERIF_RACE") != "" {
 		iters = h.Pick(25, 200)
@@ -58,7 +58,12 @@ func runC13(h *H) {
 			case c.Name == "SEARCH":
 				p.Send("* SEARCH 1 2\r\n" + c.Tag + " OK done\r\n")
 			case c.Name == "STATUS":
-				p.Send("* STATUS INBOX (MESSAGES 3)\r\n" + c.Tag + " OK done\r\n")
+				// with unilateral updates of the selected mailbox in front of the answer
+				p.Send("* 9 EXISTS\r\n* 2 EXPUNGE\r\n* FLAGS (\\Seen $x)\r\n* STATUS INBOX (MESSAGES 3)\r\n" + c.Tag + " OK done\r\n")
+			case c.Name == "NOOP":
+				p.Send("* 7 EXISTS\r\n* 1 EXPUNGE\r\n" + c.Tag + " OK done\r\n")
+			case c.Name == "SELECT":
+				p.Send("* 5 EXISTS\r\n* FLAGS (\\Seen \\Deleted)\r\n* OK [PERMANENTFLAGS (\\Seen \\*)] perm\r\n* OK [UIDVALIDITY 9] v\r\n" + c.Tag + " OK [READ-WRITE] selected\r\n")
 			case c.Name == "IDLE":
 				idleTag = c.Tag
 				p.Send("+ idling\r\n")
@@ -84,6 +89,12 @@ func runC13(h *H) {
 		}
 		if err := client.WaitGreeting(); err != nil {
 			h.Fail("greeting", err.Error(), desc)
+			peer.Close()
+			continue
+		}
+		// a selected mailbox, so that the snapshot handed out by Mailbox() is live
+		if !withTimeout(5*time.Second, func() { client.Select("INBOX", nil).Wait() }) {
+			h.Fail("completion-missing", "SELECT did not return", desc)
 			peer.Close()
 			continue
 		}
@@ -153,6 +164,7 @@ func runC13(h *H) {
 		}
 		// observer
 		stopObs := make(chan struct{})
+		obsSink := 0
 		go func() {
 			for {
 				select {
@@ -160,10 +172,12 @@ func runC13(h *H) {
 					return
 				default:
 					client.State()
-					client.Mailbox()
-					if rng.Intn(1) == 0 {
-						client.Caps()
+					// the snapshot returned by Mailbox() belongs to the caller: reading its
+					// fields must not race with the reader goroutine applying EXISTS/EXPUNGE/FLAGS
+					if mb := client.Mailbox(); mb != nil {
+						obsSink += int(mb.NumMessages) + len(mb.Flags) + len(mb.PermanentFlags) + len(mb.Name)
 					}
+					client.Caps()
 				}
 			}
 		}()
